@@ -529,7 +529,7 @@ E2E = {
     "amax_no_dim": ("FIXED", "torch.amax(x) [aten::amax, dim omitted]"),
     # fixed by 50e6b6d (C16-kw-rejected-like-ops): must export now; reproducing again is a VIOLATION
     "rand_like_memory_format": ("FIXED", "torch.rand_like(x, memory_format=torch.preserve_format) [aten::rand_like]"),
-    "mean_dtype": ("FIXED", "x.mean(dtype=torch.float64) [aten::mean, dtype silently dropped]"),
+    "mean_dtype": ("C16-mean-dtype-dropped", "x.mean(dtype=torch.float64) [aten::mean, dtype silently dropped]"),
     "quantize_per_tensor_tensor": ("FIXED", "quantized_decomposed.quantize_per_tensor.tensor(x, scale_t, zp_t, -128, 127, int8)"),
 }
 
